@@ -25,6 +25,13 @@ SUBSET_CFGS = [
     {"localVarPrefix": "q", "csiMethods": [{"src": "plusOperator"}, {"src": "trim", "operator": True}, {"src": "concat", "dst": "cc"},
                                            {"src": "aloneMethod", "dst": "alone", "allowedWithoutCallee": True}]},
     {"localVarPrefix": "p", "csiMethods": []},
+    # the same source names as the full configuration under other hook names (anything keyed by `src` shows here)
+    {"localVarPrefix": "r", "telemetryVerbosity": "DEBUG", "csiMethods": [
+        {"src": "plusOperator", "operator": True, "dst": "add"}, {"src": "tplOperator", "operator": True, "dst": "tpl2"},
+        {"src": "trim", "dst": "trim2"}, {"src": "concat", "dst": "concat2"}, {"src": "substring", "dst": "otherSubstring"},
+        {"src": "replace", "dst": "replace2"}, {"src": "slice", "dst": "slice2"}, {"src": "toUpperCase", "dst": "upper"},
+        {"src": "padStart", "dst": "pad"}, {"src": "repeat", "dst": "repeat2"},
+        {"src": "aloneMethod", "dst": "alone2", "allowedWithoutCallee": True}, {"src": "encodeURI", "dst": "enc"}]},
     # several methods behind one hook name, comments kept, chaining on, a prefix that is a non-ASCII identifier part
     {"localVarPrefix": "caf\u00e9", "comments": True, "chainSourceMap": True, "telemetryVerbosity": "DEBUG", "csiMethods": [
         {"src": "plusOperator", "operator": True}, {"src": "tplOperator", "operator": True}, {"src": "trim", "dst": "strOp"},
@@ -186,6 +193,9 @@ LITERAL_PLACEMENTS = [
     ("directive_like", "function m(a) { 'LIT'; return a + 1; }"),
     ("after_unicode", "function m(a) { const s = '\u00e9\u00e9', v = a + 'LIT'; return v; }"),
     ("crlf", "function m(a) {\r\n  return a +\r\n    'LIT';\r\n}"),
+    ("hook_namespace_call", "function m(a) { _ddiast.report(a, 'LIT'); return a + 'LIT'; }"),
+    ("dynamic_import", "async function m(a) { const p = await import('LIT'); return import(a, { with: { type: 'LIT' } }); }"),
+    ("pattern_default", "function m(o) { const { mode = 'LIT', [a + 'LIT']: k } = o; for (const { x = 'LIT' } of o) { k(x); } return mode; }"),
 ]
 
 RESERVED_PLACEMENTS = [
@@ -215,6 +225,8 @@ RESERVED_PLACEMENTS = [
     ("destructuring", "function m(a, b) { const { x: RSV } = a; return a + b(); }"),
     ("for_of_binding", "function m(a, b) { for (const RSV of a) { v = a + b(); } }"),
     ("no_temps_needed", "function m(a, b) { return RSV + a; }"),
+    ("decl_then_optchain_block", "function m(a, o) { { const RSV = 1; r = a + g(RSV); } { return o?.name.trim(); } }"),
+    ("ref_then_optchain", "function m(a, o) { const c = a + g(RSV); return o?.x.trim(); }"),
     ("concise_arrow_body", "function m(a, b) { const peek = () => RSV; const r = a() + b(); return [r, peek()]; }"),
     ("concise_arrow_body_arg", "function m(a, b) { const r = a() + b(); return [r].map((x) => RSV); }"),
     ("arrow_block_body", "function m(a, b) { const peek = () => { return RSV; }; return a() + b(); }"),
